@@ -830,6 +830,13 @@ func init() {
 	regNative("strconv.ParseUint", false, func(in *Interp, th *Thread, fr *Frame, args []Value, call ssa.Instruction) (Value, ctl) {
 		return in.parseIntSym(th, args[0], int64(in.intArg(th, args[1])), int64(in.intArg(th, args[2])), true), ctlNext
 	})
+	regNative("strconv.Itoa", false, func(in *Interp, th *Thread, fr *Frame, args []Value, call ssa.Instruction) (Value, ctl) {
+		n := args[0].(*Term)
+		if n.IsConst() {
+			return fmt.Sprint(n.S()), ctlNext
+		}
+		return &LazyStr{parts: []Value{&lazyItoa{n: n}}}, ctlNext
+	})
 	regNative("strconv.Atoi", false, func(in *Interp, th *Thread, fr *Frame, args []Value, call ssa.Instruction) (Value, ctl) {
 		return in.parseIntSym(th, args[0], 10, 64, false), ctlNext
 	})
